@@ -118,7 +118,28 @@ def gen_images_doc(rng, tier, n):
                 if rng.random() < 0.5:
                     rec.pop("unified", None); rec.pop("additional_variants", None)
             c.sort(key=lambda x: x["path"])
+    malformed = None
+    if rng.random() < 0.06:
+        v = rng.choice(variants)
+        a = rng.choice(list(images[v]))
+        malformed = rng.choice(["cell-is-dict", "missing-path", "missing-arch", "variant-is-list", "image-is-string", "size-is-text", "cell-is-null"])
+        if malformed == "cell-is-dict":
+            images[v][a] = {"x": 1}
+        elif malformed.startswith("missing-"):
+            if images[v][a]:
+                images[v][a][0].pop(malformed[8:], None)
+        elif malformed == "variant-is-list":
+            images[v] = ["x86_64"]
+        elif malformed == "image-is-string":
+            images[v][a] = ["boot.iso"]
+        elif malformed == "size-is-text":
+            if images[v][a]:
+                images[v][a][0]["size"] = "12 "
+        elif malformed == "cell-is-null":
+            images[v][a] = None
     hdr = {"version": ver}
+    if malformed:
+        hdr["x-malformed"] = malformed
     if ver != "1.0" or rng.random() < 0.5:
         hdr["type"] = "productmd.images"
     return {"header": hdr, "payload": {"compose": dict((kk, vv) for kk, vv in F.gen_compose(rng, t).items() if kk in ("id", "type", "date", "respin")),
@@ -266,6 +287,35 @@ def gen_rpms03_doc(rng, tier, n):
             manifest[v][a][kk][first]["type"] = "source"          # a source entry with srpm_nevra: refused by add
             inject = "source-type"
             break
+    malformed = None
+    cand = [(v, a) for v in variants for a in manifest[v] if a != "src" and manifest[v][a]]
+    if inject is None and cand and rng.random() < 0.07:
+        # malformed stream (correspondence only): one structural corruption, the error branches of the reader
+        v, a = rng.choice(cand)
+        kk = next(iter(manifest[v][a]))
+        nn = next(iter(manifest[v][a][kk]))
+        malformed = rng.choice(["missing-type", "missing-path", "missing-sigkey", "src-missing-path", "src-missing-sigkey", "cell-is-list", "rpms-is-list",
+                                "src-table-is-list", "path-is-null", "variant-is-list", "src-path-absolute", "nevra-without-epoch"])
+        if malformed.startswith("missing-"):
+            manifest[v][a][kk][nn].pop(malformed[8:], None)
+        elif malformed.startswith("src-missing-"):
+            manifest[v]["src"] = {kk: {"path": "p.src.rpm", "sigkey": None}}
+            manifest[v]["src"][kk].pop(malformed[12:], None)
+        elif malformed == "cell-is-list":
+            manifest[v][a] = []
+        elif malformed == "rpms-is-list":
+            manifest[v][a][kk] = [1]
+        elif malformed == "src-table-is-list":
+            manifest[v]["src"] = []
+        elif malformed == "path-is-null":
+            manifest[v][a][kk][nn]["path"] = None
+        elif malformed == "variant-is-list":
+            manifest[v] = []
+        elif malformed == "src-path-absolute":
+            manifest[v]["src"] = {kk: {"path": "/abs/p.src.rpm", "sigkey": None}}
+        elif malformed == "nevra-without-epoch":
+            manifest[v][a][kk]["foo-1.0-1.noarch"] = manifest[v][a][kk].pop(nn)
+        inject = "malformed:" + malformed
     collision = False
     if inject is None and rng.random() < 0.06:
         # correspondence only: a second text of ONE source package in the same table (`...src` and `...src.rpm`), each with its own
@@ -286,7 +336,7 @@ def gen_rpms03_doc(rng, tier, n):
     suffix, respin = rng.choice(["", ".n", ".t"]), rng.choice([0, 1, 3])
     cid = "%s-%s-20140507%s.%d" % (rng.choice(["Fedora", "RHEL"]), rng.choice(["20", "7.0"]), suffix, respin)
     comp = {"id": cid, "type": {"": "production", ".n": "nightly", ".t": "test"}[suffix], "date": "20140507", "respin": respin}
-    return {"doc": {"header": hdr, "payload": {"compose": comp, "manifest": manifest}}, "canon": canon, "inject": inject, "collision": collision}
+    return {"doc": {"header": hdr, "payload": {"compose": comp, "manifest": manifest}}, "canon": canon, "inject": inject, "collision": collision, "malformed": malformed}
 
 
 SIGKEYS_SIGNED = ["fd431d51", "FD431D51", "AbCd1234", "34EC9CBA", "f5282ee4"]
@@ -518,6 +568,13 @@ class C10(Prop):
         return None
 
     def _oracle_img_load(self, doc, real_out, tbl):
+        if doc["header"].get("x-malformed"):
+            # outside the quantifier (well-formed documents); whatever was loaded must still have binary arch keys only
+            if "ok" in real_out:
+                bad = [[v, x] for v, ks in real_out["ok"]["keys"].items() for x in ks if not is_binary(x, tbl)]
+                if bad:
+                    return {"kind": "source-arch-key", "observed": {"bad_keys": bad}, "required": "every arch key of a loaded manifest is binary"}
+            return None
         must_fail, groups, outside = images_expectation(doc, tbl)
         ver = doc["header"]["version"]
         if must_fail:
@@ -571,6 +628,13 @@ class C10(Prop):
 
     def _oracle_rpm_load(self, a, real_out, tbl):
         doc = a["doc"]
+        if a.get("malformed"):
+            # outside the quantifier (well-formed documents); whatever was loaded must still have binary arch keys only
+            if "ok" in real_out:
+                bad = [va for va in arch_keys(real_out["ok"]["payload"]) if not is_binary(va[1], tbl)]
+                if bad:
+                    return {"kind": "source-arch-key", "observed": {"bad_keys": bad}, "required": "no src / nosrc / unknown arch key after the conversion"}
+            return None
         must_fail, want, claims, outside = rpms03_expectation(doc, a["canon"], tbl)
         ver = doc["header"]["version"]
         if must_fail:
@@ -651,11 +715,11 @@ class C10(Prop):
             for v in list(tblv):
                 if len(tblv) > 1:
                     c = copy.deepcopy(case); del c["args"]["doc"]["payload"][key][v]; out.append(c)
-            for v in list(tblv):
+            for v in [v for v in tblv if isinstance(tblv[v], dict)]:
                 for aa in list(tblv[v]):
                     if len(tblv[v]) > 1:
                         c = copy.deepcopy(case); del c["args"]["doc"]["payload"][key][v][aa]; out.append(c)
-            for v in list(tblv):
+            for v in [v for v in tblv if isinstance(tblv[v], dict)]:
                 for aa in list(tblv[v]):
                     cell = tblv[v][aa]
                     if isinstance(cell, list):
